@@ -87,7 +87,14 @@ theorem partition_shape_dual (t : Term) (hwf : t.wf = true) (hty : t.typeOf = so
 
 /-! ## Boolean quantifier elimination -/
 
-/-- Shannon expansion returns a formula (term) with the same value … -/
+/-- Shannon expansion returns a formula (term) with the same value …
+
+Model boundary (`shannon_*`, `selfSub_*`): the theorems are about the model's own substitution `substT`, which
+rebuilds nodes as they are (only `not`/`and`/`or`/binders go through the smart constructors).  The code rebuilds an
+array VALUE through `FormulaManager.Array`, which drops the entries equal to the new default
+(`Array(p)[3 := False]` with `p := False`); agreement of the model with the code on inputs where an eliminated
+variable occurs inside an array-value node is not covered (K leaves these inputs out; the semantic check S and the
+statements below, which are about the model, are unaffected). -/
 theorem shannon_equiv (t : Term) (hwf : t.wf = true) (hbq : boolQuants t = true) (I : Interp) (hI : I.WF)
     (hx : BoolExact I) : eval I (shannon t) = eval I t := (shannon_spec t hwf hbq).2.2 I hI hx
 
